@@ -1,5 +1,577 @@
-//! C05 harness — to be written (see /verif/mc/HARNESS_GUIDE.md).
-fn main() {
-    eprintln!("MACHINERY-ERROR: harness C05 not built yet");
-    std::process::exit(2);
+//! C05 — a fitted decision tree is a consistent, greedy-optimal partition within limits.
+//!
+//! E1 over (training set, criterion, max_depth, min_samples_leaf, min_samples_split): every data
+//! set over small alphabets (lattices with many ties, all permutations of distinct values, three
+//! adjacent doubles) and every member of deterministic structured families (n = 8..150, p = 1..6)
+//! is fitted by the real `DecisionTreeClassifier` / `DecisionTreeRegressor`; the node array is read
+//! back from the model's serde serialisation and judged by a brute-force oracle (`oracle.rs`).
+
+mod data;
+mod mirror;
+mod oracle;
+
+use mc_core::{self as mc, json, Harness, Job, Plan, Tier, Value};
+use mc_sc::{own_rng, release_rng, take_draws, RngMode};
+use mirror::MTree;
+use oracle::{classify, judge, Cfg, Crit, Data, Model};
+use smartcore::linalg::naive::dense_matrix::DenseMatrix;
+use smartcore::tree::decision_tree_classifier::{DecisionTreeClassifier, DecisionTreeClassifierParameters, SplitCriterion};
+use smartcore::tree::decision_tree_regressor::{DecisionTreeRegressor, DecisionTreeRegressorParameters};
+use smartcore::verif_hooks::QuickArgSort;
+
+struct C05;
+
+enum Fitted {
+    R(DecisionTreeRegressor<f64>),
+    C(DecisionTreeClassifier<f64>),
 }
+
+impl Fitted {
+    fn bytes(&self) -> Result<Vec<u8>, String> {
+        match self {
+            Fitted::R(m) => mirror::bytes_of(m),
+            Fitted::C(m) => mirror::bytes_of(m),
+        }
+    }
+    fn cross_check(&self) -> Result<(), String> {
+        match self {
+            Fitted::R(m) => mirror::cross_check(m, false),
+            Fitted::C(m) => mirror::cross_check(m, true),
+        }
+    }
+    fn predict(&self, x: &DenseMatrix<f64>) -> Result<Vec<f64>, String> {
+        match self {
+            Fitted::R(m) => m.predict(x).map_err(|e| e.to_string()),
+            Fitted::C(m) => m.predict(x).map_err(|e| e.to_string()),
+        }
+    }
+}
+
+fn fit(x: &DenseMatrix<f64>, y: &Vec<f64>, cfg: &Cfg) -> Result<Fitted, String> {
+    match cfg.model {
+        Model::Reg => {
+            DecisionTreeRegressor::fit(x, y, DecisionTreeRegressorParameters { max_depth: cfg.depth, min_samples_leaf: cfg.msl, min_samples_split: cfg.mss }).map(Fitted::R).map_err(|e| e.to_string())
+        }
+        Model::Cls(c) => {
+            let criterion = match c {
+                Crit::Gini => SplitCriterion::Gini,
+                Crit::Entropy => SplitCriterion::Entropy,
+                Crit::ClsErr => SplitCriterion::ClassificationError,
+            };
+            DecisionTreeClassifier::fit(x, y, DecisionTreeClassifierParameters { criterion, max_depth: cfg.depth, min_samples_leaf: cfg.msl, min_samples_split: cfg.mss }).map(Fitted::C).map_err(|e| e.to_string())
+        }
+    }
+}
+
+/// Fit under the panic guard and read the node array back. Violations are reported under `site`.
+fn fit_and_read(x: &DenseMatrix<f64>, y: &Vec<f64>, cfg: &Cfg, site: &str, what: &dyn Fn() -> String) -> Option<(Fitted, Vec<u8>, MTree)> {
+    let model = match mc::guard(|| fit(x, y, cfg)) {
+        Err(p) => {
+            let sfx = if p.is_overflow_check() { ":overflow-check" } else { "" };
+            mc::violation(format!("{}:panic{}", site, sfx), format!("{}: fit panicked: {}", what(), p.brief()));
+            return None;
+        }
+        Ok(Err(e)) => {
+            mc::violation(format!("{}:error", site), format!("{}: fit failed: {}", what(), e));
+            return None;
+        }
+        Ok(Ok(m)) => m,
+    };
+    let read = model.bytes().and_then(|b| mirror::from_bytes(&b, cfg.model.is_cls()).map(|t| (b, t)));
+    match read {
+        Ok((b, t)) => Some((model, b, t)),
+        Err(e) => {
+            mc::violation(format!("{}:serialisation", site), format!("{}: {}", what(), e));
+            None
+        }
+    }
+}
+
+const SCALES: [i32; 2] = [-3, 5];
+
+/// One execution: fit, judge, fit again, fit on rescaled features.
+fn exec_case(d: &Data, cfg: &Cfg) {
+    let ic = classify(d);
+    let comp = cfg.model.comp();
+    let site = |clause: &str| format!("{}.{}:{}", comp, clause, ic.name);
+    let what = || format!("{} on {}", cfg.text(), d.text());
+    let x = DenseMatrix::from_2d_vec(&d.x);
+
+    // the library hands thread_rng to the tree; with all features tried it must not draw from it
+    own_rng(RngMode::All);
+    let fitted = fit_and_read(&x, &d.y, cfg, &site("fit"), &what);
+    let draws = take_draws();
+    release_rng();
+    if !draws.is_empty() {
+        mc::violation(site("deterministic"), format!("{}: fit on all rows / all features made {} random draws", what(), draws.len()));
+    }
+    let Some((model, bytes, tree)) = fitted else { return };
+    if mc::sampling() {
+        if let Err(e) = model.cross_check() {
+            panic!("harness self-check failed: {}", e);
+        }
+    }
+
+    let mut predict = |q: &[Vec<f64>]| -> Option<Vec<f64>> {
+        let qm = DenseMatrix::from_2d_vec(&q.to_vec());
+        match mc::guard(|| model.predict(&qm)) {
+            Ok(Ok(v)) => Some(v),
+            Ok(Err(e)) => {
+                mc::violation(format!("{}:error", site("predict")), format!("{}: predict failed: {}", what(), e));
+                None
+            }
+            Err(p) => {
+                mc::violation(format!("{}:panic", site("predict")), format!("{}: predict panicked: {}", what(), p.brief()));
+                None
+            }
+        }
+    };
+    let judged = judge(&tree, d, cfg, &ic, &mut predict);
+
+    // ---- fitted twice => identical model
+    if let Some((_, bytes2, _)) = fit_and_read(&x, &d.y, cfg, &site("fit"), &what) {
+        if bytes2 != bytes {
+            mc::violation(site("deterministic"), format!("{}: two fits on the same rows give different serialised models", what()));
+        }
+    }
+
+    // ---- features multiplied by a positive power of two => same tree, thresholds scaled exactly
+    for k in SCALES {
+        let s = 2f64.powi(k);
+        let xs: Vec<Vec<f64>> = d.x.iter().map(|r| r.iter().map(|v| v * s).collect()).collect();
+        let xm = DenseMatrix::from_2d_vec(&xs);
+        if let Some((_, _, ts)) = fit_and_read(&xm, &d.y, cfg, &site("fit"), &what) {
+            let mut scaled = tree.clone();
+            scaled.nodes.iter_mut().for_each(|n| n.thr = n.thr.map(|t| t * s));
+            // a leaf may keep the threshold of a split that was found but not carried out; compare it too
+            if !scaled.same(&ts) {
+                mc::violation(
+                    site("scale-invariance"),
+                    format!("{}: fitting on features x 2^{} changes the tree: {} vs (thresholds x 2^{}) {}", what(), k, ts.to_json(), k, scaled.to_json()),
+                );
+            }
+        }
+    }
+
+    if tree.nodes.len() > 1 {
+        mc::nontrivial();
+        mc::count("root_split");
+    } else {
+        mc::count("unsplit_root");
+    }
+    if let Some(j) = &judged {
+        if j.max_path >= 2 {
+            mc::count("trees_2plus_levels");
+        }
+        if j.max_path >= 4 {
+            mc::count("trees_4plus_levels");
+        }
+        let _ = j.n_leaves;
+    }
+    mc::outcome(tree.digest());
+    mc::describe(|| {
+        json!({
+            "model": cfg.text(), "input_class": ic.name, "family": d.family, "x": d.x, "y": d.y,
+            "tree": tree.to_json(),
+            "predict_on_training_rows": model.predict(&x).ok(),
+            "checked": ["routing", "leaf value", "leaf size", "path length", "greedy optimality", "completeness", "reproduce", "fit twice", "features x 2^-3, 2^5"],
+        })
+    });
+}
+
+// ------------------------------------------------------------------------------------------------
+// job decoding
+
+const LAT_DEPTH: [i64; 4] = [0, 1, 2, 3]; // 0 = None
+const LAT_MSL: [i64; 3] = [1, 2, 3];
+const LAT_MSS: [i64; 4] = [0, 2, 3, 4];
+
+const ST_DEPTH_Q: [i64; 4] = [0, 2, 3, 8];
+const ST_MSL_Q: [i64; 3] = [1, 2, 5];
+const ST_MSS_Q: [i64; 3] = [0, 2, 8];
+const ST_DEPTH_T: [i64; 7] = [0, 1, 2, 3, 4, 5, 8];
+const ST_MSL_T: [i64; 5] = [1, 2, 3, 4, 5];
+const ST_MSS_T: [i64; 6] = [0, 1, 2, 3, 5, 8];
+const ST_K: [usize; 4] = [2, 3, 5, 4];
+
+fn dim(job: &Job, key: &str, alphabet: &[i64]) -> i64 {
+    match job.params.get(key).and_then(|v| v.as_i64()) {
+        Some(v) => v,
+        None => mc::pick(alphabet),
+    }
+}
+
+fn model_of(s: &str) -> Model {
+    match s {
+        "reg" => Model::Reg,
+        "gini" => Model::Cls(Crit::Gini),
+        "entropy" => Model::Cls(Crit::Entropy),
+        "error" => Model::Cls(Crit::ClsErr),
+        other => panic!("unknown model {}", other),
+    }
+}
+
+fn cfg_of(job: &Job, model: Model, depths: &[i64], msls: &[i64], msss: &[i64]) -> Cfg {
+    let depth = dim(job, "depth", depths);
+    let msl = dim(job, "msl", msls) as usize;
+    let mss = dim(job, "mss", msss) as usize;
+    Cfg { model, depth: if depth == 0 { None } else { Some(depth as u16) }, msl, mss }
+}
+
+/// Chooses the targets (n letters); None when a classification target has a single class (outside
+/// the property's quantifier: the classifier rejects it).
+fn choose_y(model: Model, n: usize, yalpha: &[f64; 3], map: &[f64; 3]) -> Option<Vec<f64>> {
+    let letters: Vec<usize> = (0..n).map(|_| mc::choose(3)).collect();
+    if model.is_cls() {
+        if letters.iter().all(|l| *l == letters[0]) {
+            mc::count("single_class_outside_domain");
+            return None;
+        }
+        Some(letters.iter().map(|l| map[*l]).collect())
+    } else {
+        Some(letters.iter().map(|l| yalpha[*l]).collect())
+    }
+}
+
+fn run_lattice(job: &Job, seed: u64) {
+    let model = model_of(job.s("model"));
+    let (n, p) = (job.u("n"), job.u("p"));
+    let cfg = cfg_of(job, model, &LAT_DEPTH, &LAT_MSL, &LAT_MSS);
+    let xa = if job.s("alpha") == "ulp" { data::ulp_alphabet() } else { data::x_alphabet(seed) };
+    let map = data::LABEL_MAPS[job.u("map") % data::LABEL_MAPS.len()];
+    let Some(y) = choose_y(model, n, &data::y_alphabet(seed), &map) else { return };
+    let x: Vec<Vec<f64>> = (0..n).map(|_| (0..p).map(|_| xa[mc::choose(3)]).collect()).collect();
+    exec_case(&Data { x, y, family: String::new() }, &cfg);
+}
+
+fn choose_perm(n: usize) -> Vec<usize> {
+    let mut rest: Vec<usize> = (0..n).collect();
+    (0..n).map(|_| rest.remove(mc::choose(rest.len()))).collect()
+}
+
+fn run_perm(job: &Job, seed: u64) {
+    let model = model_of(job.s("model"));
+    let (n, p) = (job.u("n"), job.u("p"));
+    let cfg = cfg_of(job, model, &LAT_DEPTH, &LAT_MSL, &LAT_MSS);
+    let map = data::LABEL_MAPS[job.u("map") % data::LABEL_MAPS.len()];
+    let Some(y) = choose_y(model, n, &data::y_alphabet(seed), &map) else { return };
+    let mut x = vec![vec![0.0; p]; n];
+    for j in 0..p {
+        let perm = choose_perm(n);
+        for i in 0..n {
+            x[i][j] = data::rank_value(seed, perm[i]);
+        }
+    }
+    exec_case(&Data { x, y, family: String::new() }, &cfg);
+}
+
+const SORT_CFGS: [(i64, i64, i64); 3] = [(0, 1, 0), (0, 2, 4), (2, 3, 2)];
+
+/// p = 1, n >= 8 rows over a four-letter alphabet: every such column, so that the library's
+/// argsort leaves its insertion-sort regime on every arrangement of ties.
+fn run_sorttree(job: &Job, seed: u64) {
+    let model = model_of(job.s("model"));
+    let n = job.u("n");
+    let (depth, msl, mss) = mc::pick(&SORT_CFGS);
+    let cfg = Cfg { model, depth: if depth == 0 { None } else { Some(depth as u16) }, msl: msl as usize, mss: mss as usize };
+    let ykind = mc::choose(2);
+    let xa = data::x4_alphabet(seed);
+    let first = job.u("first");
+    let x: Vec<Vec<f64>> = (0..n).map(|i| vec![xa[if i == 0 { first } else { mc::choose(4) }]]).collect();
+    let y: Vec<f64> = (0..n)
+        .map(|i| match (model.is_cls(), ykind) {
+            (false, 0) => data::y_alphabet(seed)[i % 3],
+            (false, _) => ((i * 7) % 5) as f64 - 1.5,
+            (true, 0) => data::LABEL_MAPS[2][i % 3],
+            (true, _) => data::LABEL_MAPS[1][(i * 7 % 5) % 3],
+        })
+        .collect();
+    exec_case(&Data { x, y, family: String::new() }, &cfg);
+}
+
+fn run_struct(job: &Job, seed: u64, thorough: bool) {
+    let model = model_of(job.s("model"));
+    let (n, p) = (job.u("n"), job.u("p"));
+    let cfg = if thorough { cfg_of(job, model, &ST_DEPTH_T, &ST_MSL_T, &ST_MSS_T) } else { cfg_of(job, model, &ST_DEPTH_Q, &ST_MSL_Q, &ST_MSS_Q) };
+    let start = mc::choose(data::N_COLS);
+    let x: Vec<Vec<f64>> = (0..n).map(|i| (0..p).map(|j| data::col(start + j, n, i, seed)).collect()).collect();
+    let cols: Vec<&str> = (0..p).map(|j| data::COL_NAMES[(start + j) % data::N_COLS]).collect();
+    let (y, yname): (Vec<f64>, String) = if model.is_cls() {
+        let k = if thorough { mc::pick(&ST_K) } else { mc::pick(&ST_K[..3]) };
+        let yk = mc::choose(data::N_YCLS);
+        ((0..n).map(|i| data::UGLY5[data::y_cls(yk, k, n, i, seed)]).collect(), format!("{} classes {}", k, data::YCLS_NAMES[yk]))
+    } else {
+        let yk = mc::choose(data::N_YREG);
+        ((0..n).map(|i| data::y_reg(yk, n, i, seed)).collect(), data::YREG_NAMES[yk].to_string())
+    };
+    let family = format!("structured features {:?}, targets {}, seed {}", cols, yname, seed % 8);
+    exec_case(&Data { x, y, family }, &cfg);
+}
+
+/// The pre-sorting mechanism itself: every vector over a four-letter alphabet.
+fn run_argsort(job: &Job, seed: u64) {
+    let n = job.u("n");
+    let xa = data::x4_alphabet(seed);
+    let fixed: Vec<usize> = job.params["fixed"].as_array().map(|a| a.iter().map(|v| v.as_u64().unwrap() as usize).collect()).unwrap_or_default();
+    let v: Vec<f64> = (0..n).map(|i| xa[if i < fixed.len() { fixed[i] } else { mc::choose(4) }]).collect();
+    let regime = if n <= 7 { "insertion-sort-regime" } else { "partition-regime" };
+    let mut w = v.clone();
+    let idx = match mc::guard(|| w.quick_argsort_mut()) {
+        Ok(i) => i,
+        Err(p) => {
+            mc::violation(format!("quicksort.argsort:{}:panic", regime), format!("quick_argsort_mut({:?}) panicked: {}", v, p.brief()));
+            return;
+        }
+    };
+    let mut seen = vec![false; n];
+    let is_perm = idx.len() == n && idx.iter().all(|&i| i < n && !std::mem::replace(&mut seen[i], true));
+    if !is_perm {
+        mc::violation(format!("quicksort.argsort:{}:not-a-permutation", regime), format!("quick_argsort_mut({:?}) returned {:?}", v, idx));
+        return;
+    }
+    if idx.windows(2).any(|p| v[p[0]] > v[p[1]]) || (0..n).any(|i| w[i] != v[idx[i]]) {
+        mc::violation(format!("quicksort.argsort:{}:not-sorted", regime), format!("quick_argsort_mut({:?}) returned order {:?} leaving the vector as {:?}", v, idx, w));
+    }
+    if idx.windows(2).any(|p| v[p[0]] == v[p[1]] && p[0] > p[1]) {
+        mc::count("argsort_unstable_among_ties");
+    }
+    mc::nontrivial();
+    mc::outcome(mc::hash::h_usizes(&idx));
+    mc::describe(|| json!({"op": "quick_argsort_mut", "input": v, "order": idx, "sorted": w}));
+}
+
+// ------------------------------------------------------------------------------------------------
+
+const MODELS: [&str; 4] = ["reg", "gini", "entropy", "error"];
+
+fn lat(name: String, alpha: &str, model: &str, p: usize, n: usize, map: usize, fixed: &[(&str, i64)]) -> Job {
+    let mut params = json!({"kind": "lat", "alpha": alpha, "model": model, "p": p, "n": n, "map": map});
+    for (k, v) in fixed {
+        params[*k] = json!(*v);
+    }
+    Job::new(name, params)
+}
+
+impl Harness for C05 {
+    fn id(&self) -> &'static str {
+        "C05"
+    }
+
+    fn plan(&self, tier: Tier, seed: u64) -> Plan {
+        let t = tier.is_thorough();
+        let mut jobs: Vec<Job> = Vec::new();
+
+        // ---- argsort mechanism
+        let amax = if t { 12 } else { 10 };
+        for n in 1..=amax {
+            if n <= 9 {
+                jobs.push(Job::new(format!("argsort-n{}", n), json!({"kind": "argsort", "n": n, "fixed": []})));
+            } else {
+                for a in 0..4 {
+                    for b in 0..4 {
+                        if n >= 12 {
+                            for c in 0..4 {
+                                jobs.push(Job::new(format!("argsort-n{}-{}{}{}", n, a, b, c), json!({"kind": "argsort", "n": n, "fixed": [a, b, c]})));
+                            }
+                        } else {
+                            jobs.push(Job::new(format!("argsort-n{}-{}{}", n, a, b), json!({"kind": "argsort", "n": n, "fixed": [a, b]})));
+                        }
+                    }
+                }
+            }
+        }
+
+        // ---- lattices, p = 1 (small n: all configurations inside one job)
+        let small_max = 4;
+        for n in 2..=small_max {
+            jobs.push(lat(format!("lat-reg-p1-n{}", n), "int", "reg", 1, n, 0, &[]));
+            for m in &MODELS[1..] {
+                for map in 0..data::LABEL_MAPS.len() {
+                    jobs.push(lat(format!("lat-{}-p1-n{}-labels{}", m, n, map), "int", m, 1, n, map, &[]));
+                }
+            }
+        }
+        // ---- three adjacent doubles
+        let ulp_max = if t { 5 } else { 4 };
+        for n in 2..=ulp_max {
+            for m in MODELS {
+                jobs.push(lat(format!("ulp-{}-p1-n{}", m, n), "ulp", m, 1, n, 1, &[]));
+            }
+        }
+        if t {
+            for n in 2..=3 {
+                for m in MODELS {
+                    jobs.push(lat(format!("ulp-{}-p2-n{}", m, n), "ulp", m, 2, n, 1, &[]));
+                }
+            }
+        }
+        // ---- lattices, p = 2
+        for m in MODELS {
+            jobs.push(lat(format!("lat-{}-p2-n2", m), "int", m, 2, 2, 2, &[]));
+        }
+        // ---- distinct values (all permutations), small n
+        for n in 2..=4 {
+            for m in MODELS {
+                jobs.push(Job::new(format!("perm-{}-p1-n{}", m, n), json!({"kind": "perm", "model": m, "p": 1, "n": n, "map": 2})));
+            }
+        }
+        for n in 2..=3 {
+            for m in MODELS {
+                jobs.push(Job::new(format!("perm-{}-p2-n{}", m, n), json!({"kind": "perm", "model": m, "p": 2, "n": n, "map": 1})));
+            }
+        }
+        // ---- structured families (n = 8..150)
+        let (ns, ps): (&[usize], &[usize]) = if t { (&[8, 9, 10, 11, 12, 13, 16, 17, 23, 32, 40, 64, 100, 150], &[1, 2, 3, 4, 5, 6]) } else { (&[8, 11, 16, 23, 40], &[1, 2, 3, 6]) };
+        for &n in ns {
+            for &p in ps {
+                for m in MODELS {
+                    if t && n >= 32 {
+                        for d in ST_DEPTH_T {
+                            jobs.push(Job::new(format!("struct-{}-n{}-p{}-depth{}", m, n, p, d), json!({"kind": "struct", "model": m, "n": n, "p": p, "depth": d})));
+                        }
+                    } else {
+                        jobs.push(Job::new(format!("struct-{}-n{}-p{}", m, n, p), json!({"kind": "struct", "model": m, "n": n, "p": p})));
+                    }
+                }
+            }
+        }
+        // ---- larger lattices: one job per (model, depth, msl) [and first letters]
+        let mut big = |name: &str, kind: &str, p: usize, n: usize, map: usize, split_mss: bool| {
+            for m in MODELS {
+                for d in LAT_DEPTH {
+                    for l in LAT_MSL {
+                        let mss_list: Vec<Option<i64>> = if split_mss { LAT_MSS.iter().map(|v| Some(*v)).collect() } else { vec![None] };
+                        for s in mss_list {
+                            let mut params = json!({"kind": kind, "alpha": "int", "model": m, "p": p, "n": n, "map": map, "depth": d, "msl": l});
+                            let mut nm = format!("{}-{}-p{}-n{}-depth{}-msl{}", name, m, p, n, d, l);
+                            if let Some(s) = s {
+                                params["mss"] = json!(s);
+                                nm.push_str(&format!("-mss{}", s));
+                            }
+                            jobs.push(Job::new(nm, params));
+                        }
+                    }
+                }
+            }
+        };
+        big("lat", "lat", 1, 5, 2, false);
+        big("lat", "lat", 2, 3, 1, false);
+        big("perm", "perm", 1, 5, 1, false);
+        if t {
+            big("lat", "lat", 1, 6, 1, false);
+            big("perm", "perm", 1, 6, 2, false);
+            big("perm", "perm", 2, 4, 2, false);
+            big("lat", "lat", 2, 4, 2, true);
+            big("lat", "lat", 1, 7, 2, true);
+        }
+        // ---- every column of n >= 8 rows over four letters (sort regime), full tree oracle
+        let smax = if t { 10 } else { 8 };
+        for n in 8..=smax {
+            for m in MODELS {
+                for first in 0..4 {
+                    jobs.push(Job::new(format!("sorttree-{}-n{}-first{}", m, n, first), json!({"kind": "sorttree", "model": m, "n": n, "first": first})));
+                }
+            }
+        }
+
+        for j in jobs.iter_mut() {
+            j.params["seed"] = json!(seed % 8);
+            j.params["thorough"] = json!(t);
+        }
+
+        Plan {
+            jobs,
+            budget_s: if t { 2700 } else { 40 },
+            case_deadline_ms: 20_000,
+            floors: vec![
+                ("root_split", 100_000),
+                ("trees_2plus_levels", 50_000),
+                ("trees_4plus_levels", 500),
+                ("reg_opt_nodes", 100_000),
+                ("cls_opt_nodes", 100_000),
+                ("gain_tie_nodes", 10_000),
+                ("zero_gain_split", 1_000),
+                ("leaf_at_msl_boundary", 10_000),
+                ("leaf_at_max_depth", 10_000),
+                ("leaf_with_pending_split", 10_000),
+                ("leaf_without_admissible_cut", 10_000),
+                ("leaf_majority_tie", 10_000),
+                ("impure_leaf", 10_000),
+                ("reproduce_checked", 10_000),
+                ("pure_leaf_above_mss", 10_000),
+            ],
+            bounds: json!({
+                "seed_variant": seed % 8,
+                "lattice_p1": format!("every x in A^n, y in B^n (|A|=|B|=3; classification: >= 2 classes, label maps {:?}), n = 2..{}", data::LABEL_MAPS, if t { 7 } else { 5 }),
+                "lattice_p2": format!("every x in A^(2n), y in B^n, n = 2..{}", if t { 4 } else { 3 }),
+                "distinct_values": format!("every permutation of n distinct values per feature x every y: p=1 n = 2..{}, p=2 n = 2..{}", if t { 6 } else { 5 }, if t { 4 } else { 3 }),
+                "adjacent_doubles": format!("every x over {{1+1ulp,1+2ulp,1+3ulp}}^n, n = 2..{} (p=1){}", ulp_max, if t { ", n = 2..3 (p=2)" } else { "" }),
+                "sort_regime": format!("every column over a 4-letter alphabet, n = 8..{}, 2 target patterns, 3 configurations", smax),
+                "structured": format!("n in {:?} x p in {:?} x 10 feature-column rotations x target patterns (4 regression; 3 x k classes) x configuration grid", ns, ps),
+                "configurations_lattice": "criterion {gini,entropy,classification error} x max_depth {None,1,2,3} x min_samples_leaf {1,2,3} x min_samples_split {0,2,3,4}",
+                "configurations_structured": if t { "max_depth {None,1,2,3,4,5,8} x msl {1..5} x mss {0,1,2,3,5,8}" } else { "max_depth {None,2,3,8} x msl {1,2,5} x mss {0,2,8}" },
+                "argsort": format!("every vector over a 4-letter alphabet, n = 1..{}", amax),
+                "per_case": "fit, predict (training rows + rows at/next to every threshold), refit, fit on features x 2^-3 and x 2^5",
+            }),
+        }
+    }
+
+    fn run(&self, job: &Job) {
+        let seed = job.params.get("seed").and_then(|v| v.as_u64()).unwrap_or(0);
+        match job.kind() {
+            "lat" => run_lattice(job, seed),
+            "perm" => run_perm(job, seed),
+            "sorttree" => run_sorttree(job, seed),
+            "struct" => run_struct(job, seed, job.b("thorough")),
+            "argsort" => run_argsort(job, seed),
+            other => panic!("unknown job kind {}", other),
+        }
+    }
+
+    fn cleanup(&self) {
+        release_rng();
+    }
+
+    fn rule(&self) -> String {
+        "one execution = one (training set, criterion, max_depth, min_samples_leaf, min_samples_split): fit + predict + refit + two rescaled fits; non-trivial = the root was split (argsort jobs: every vector); distinct = distinct digest of the fitted node array (children, split features, thresholds, outputs)".into()
+    }
+
+    fn assumptions(&self) -> Vec<String> {
+        vec![
+            "the node array read through bincode equals the one read by field name from serde_json::to_value (proved at start-up and for every sampled case)".into(),
+            "routing convention: a row goes to true_child iff value <= threshold (the alternative '<' is accepted when it reproduces predict everywhere)".into(),
+            "classification optimality / completeness / exact reproduction are demanded only when min_samples_leaf = 1 and the values within each feature are pairwise distinct, as in the statement".into(),
+            "the tree fit with all features tried makes no random draw (checked: the RNG seam must stay silent)".into(),
+            "the RNG call sites of /repo/src equal /verif/rng_sites.allow (checked at start-up)".into(),
+        ]
+    }
+}
+
+fn selfcheck() -> Result<(), String> {
+    let x = DenseMatrix::from_2d_vec(&vec![vec![0.0, 3.0], vec![1.0, 2.0], vec![2.0, 1.0], vec![3.0, 0.5]]);
+    let y = vec![-3.0, 7.0, 7.0, 10.0];
+    for m in [Model::Reg, Model::Cls(Crit::Entropy)] {
+        let f = fit(&x, &y, &Cfg { model: m, depth: None, msl: 1, mss: 0 })?;
+        f.cross_check()?;
+        let t = mirror::from_bytes(&f.bytes()?, m.is_cls())?;
+        if t.nodes.len() < 5 {
+            return Err(format!("reference tree has only {} nodes", t.nodes.len()));
+        }
+    }
+    Ok(())
+}
+
+fn main() {
+    if let Err(e) = mc_sc::check_rng_sites() {
+        eprintln!("MACHINERY-ERROR: {}", e);
+        std::process::exit(2);
+    }
+    if let Err(e) = selfcheck() {
+        eprintln!("MACHINERY-ERROR: C05 model read-back self-check failed: {}", e);
+        std::process::exit(2);
+    }
+    mc::main(C05)
+}
+
+#[allow(dead_code)]
+fn _v(_: Value) {}
